@@ -98,5 +98,6 @@ def check(ctx):
     check_snapshot_list(ctx)
     c08.check_readers(ctx)
     c01.check_version_get(ctx)     # a snapshot lookup selects files and entries with the snapshot's sequence
+    c01.check_inputs(ctx)          # versions of one user key kept for a snapshot never straddle a compaction's input boundary
     from . import c04
     c04.check_write(ctx)       # a snapshot taken during a write must not cover a half-inserted batch
